@@ -351,7 +351,11 @@ def evaluate(rng, tier, judge, n_quick=150, n_thorough=1500, runs=3, cli_share=0
                     "API / command line / its entry point in-process; a second file of the truth's kind, file names of their own, "
                     "option order, same-named stand-ins (in except handlers; rarely in statements that open no scope) and forward "
                     "declarations (of class targets; rarely of function targets), receiver and parameter style, carried bodies; "
-                    "plus 1 in 25 scenarios more that carry the shape of a recorded finding); "
+                    "a definition of the target's simple name below the top level (method / nested class / nested function), sibling "
+                    "definitions whose docstrings hold tabs inside lines, %, braces, backslashes, prose with %, braces, backslashes, "
+                    "target files of zero statements (blank lines / comments only), histories in which the KIND named as truth "
+                    "alternates after the regular runs while no file is edited; "
+                    "plus 1 in 25 scenarios more that carry the shape of a recorded finding, plus 1 in 8 more of the history stratum); "
                     "non-trivial = distinct scenario shape with at least one target on which the property held",
             "failures": failures, "histogram": dict(hist), "samples": samples}
 
